@@ -42,6 +42,10 @@ func corpus() []scenario {
 			{Op: OpNew, A: 1}, {Op: OpApp, A: 1, Sid: 1, T: 110, V: stale()}, {Op: OpCommit, A: 1},
 			{Op: OpNew, A: 2}, {Op: OpApp, A: 2, Sid: 1, T: 120, V: hi(6)}, {Op: OpCommit, A: 2},
 		}},
+		{"stale-float-deferred-hist-from-same-txn", Cfg{1000, 0, 32}, []Op{
+			{Op: OpNew, A: 0, V2: true}, {Op: OpApp, A: 0, Sid: 1, T: 100, V: fh(2)}, {Op: OpApp, A: 0, Sid: 1, T: 50, V: fl(1)},
+			{Op: OpApp, A: 0, Sid: 1, T: 110, V: stale()}, {Op: OpApp, A: 0, Sid: 1, T: 120, V: fh(3)}, {Op: OpCommit, A: 0},
+		}},
 		{"clash-inorder-ooo", Cfg{1000, 5000, 32}, []Op{
 			{Op: OpNew, A: 0}, {Op: OpApp, A: 0, Sid: 1, T: 100, V: fl(1)}, {Op: OpApp, A: 0, Sid: 2, T: 2000, V: fl(1)}, {Op: OpCommit, A: 0},
 			{Op: OpNew, A: 1}, {Op: OpApp, A: 1, Sid: 1, T: 100, V: fl(2)}, {Op: OpApp, A: 1, Sid: 1, T: 100, V: fl(3)}, {Op: OpApp, A: 1, Sid: 1, T: 50, V: fl(3)}, {Op: OpCommit, A: 1},
